@@ -10,7 +10,7 @@ The endpoint interfaces in this module provide endpoint interfaces suitable for
 connecting streams to USB endpoints.
 """
 
-from amaranth       import Elaboratable, Module, Signal
+from amaranth       import Elaboratable, Module, Mux, Signal
 
 from ..endpoint     import EndpointInterface
 from ...stream      import StreamInterface, USBOutStreamBoundaryDetector
@@ -317,6 +317,9 @@ class USBStreamOutEndpoint(Elaboratable):
         # Stores whether we're in the middle of a transfer.
         transfer_active = Signal()
 
+        # Stores whether the packet currently being received is a full (max-packet-size) one.
+        packet_is_full = Signal()
+
         #
         # Receiver logic.
         #
@@ -405,9 +408,10 @@ class USBStreamOutEndpoint(Elaboratable):
         with m.If(fifo.write_en):
             m.d.usb += rx_cnt.eq(rx_cnt + 1)
 
-            # Set the transfer active flag depending on whether this is a full packet.
+            # Remember whether this is a full packet; this decides whether the transfer continues, but
+            # only once the packet has actually been accepted (see below).
             with m.If(rx_last):
-                m.d.usb += transfer_active.eq(full_packet)
+                m.d.usb += packet_is_full.eq(full_packet)
 
         # We'll set the overflow flag if we're receiving data we don't have room for.
         with m.If(data_is_lost):
@@ -423,9 +427,17 @@ class USBStreamOutEndpoint(Elaboratable):
         with m.If(tokenizer.new_token):
             m.d.usb += overflow.eq(0)
 
+        # A packet that doesn't report otherwise (e.g. a ZLP, which never reaches the FIFO) isn't a full one.
+        with m.If(tokenizer.new_token):
+            m.d.usb += packet_is_full.eq(0)
+
         # We'll toggle our DATA PID each time we issue an ACK to the host [USB 2.0: 8.6.2].
         with m.If(data_response_requested & data_accepted):
             m.d.usb += expected_data_toggle.eq(~expected_data_toggle)
+
+            # A transfer continues after an -accepted- full packet, and ends with an accepted short one (or ZLP).
+            # Packets we discard (bad CRC, overflow) must not affect where the next transfer starts.
+            m.d.usb += transfer_active.eq(Mux(fifo.write_en & rx_last, full_packet, packet_is_full))
 
         # If there has been a ClearFeature(ENDPOINT_HALT) request address to this endpoint...
         clear_endpoint_halt = \
